@@ -452,7 +452,19 @@ fn render(
     } else {
         vec![]
     };
-    let ancs = ancillary_entries(r, anc, http_opt);
+    let mut ancs = ancillary_entries(r, anc, http_opt);
+    // "whatever the remaining settings are": settings outside the safety matrix at non-default (valid) values, seeded
+    if !plain {
+        if pick(seed, pass, i, salt + 8, 3) == 0 {
+            ancs.push(ent(&["persistence", "enable_recovery"], V::B(false), None));
+        }
+        if pick(seed, pass, i, salt + 9, 3) == 0 {
+            ancs.push(ent(&["cache", "enable_training_task"], V::B(false), None));
+        }
+        if pick(seed, pass, i, salt + 10, 3) == 0 {
+            ancs.push(ent(&["logging", "level"], V::S("debug".into()), None));
+        }
+    }
     let note = json!({"env_name": env_spelled, "sparse_omitted": omitted, "style": style, "legacy_snap_key": legacy_snap,
                       "bool_spelling": if fmt == "env" || fmt == "mix" { boolsp } else { 0 }});
     match fmt {
